@@ -1,7 +1,7 @@
 import Driver.Sexp
 import Pcore.Model.StringHashFacts
 import Pcore.Model.HashFacts
-import Pcore.Model.ArrayImpl
+import Pcore.Model.ArrayPool
 import Pcore.Generated.StringHashFacts
 import Pcore.Generated.HashOps
 /-!
@@ -308,75 +308,70 @@ def execHash (steps : List Sexp) : String :=
 
 /-! ### Array -/
 
-inductive AStep where
-  | lit (vs : List String)
-  | add (i : Nat) (v : String)
-  | addAll (i j : Nat)
-  | delete (i : Nat) (v : String)
-  | deleteAll (i j : Nat)
-  | slice (i a b : Nat)
-  | unique (i : Nat)
-  | at (i : Nat) (n : Int)
-
-def aStep? : Sexp → Option AStep
-  | .list [.atom "add", i, v] => do let i' ← ref? i; let v' ← valStr v; pure (.add i' v')
-  | .list [.atom "delete", i, v] => do let i' ← ref? i; let v' ← valStr v; pure (.delete i' v')
-  | .list [.atom "addAll", i, j] => do let i' ← ref? i; let j' ← ref? j; pure (.addAll i' j')
-  | .list [.atom "deleteAll", i, j] => do let i' ← ref? i; let j' ← ref? j; pure (.deleteAll i' j')
-  | .list [.atom "slice", i, a, b] => do let i' ← ref? i; let a' ← ref? a; let b' ← ref? b; pure (.slice i' a' b')
-  | .list [.atom "unique", i] => do let i' ← ref? i; pure (.unique i')
-  | .list [.atom "at", i, n] => do let i' ← ref? i; let n' ← n.int?; pure (.at i' n')
-  | .list (.atom "lit" :: vs) => (vs.mapM valStr).map .lit
+/-- a value with the structure `Flatten` looks at; `none` = not a value -/
+partial def avalOf : Sexp → Option AVal
+  | .atom s =>
+    match intAtom? (.atom s) with
+    | some i => some (.leaf i)
+    | none => (keyAtom? (.atom s)).map .leaf
+  | .list (.atom "a" :: xs) => (xs.mapM avalOf).map .arr
   | _ => none
 
-def arrStr (a : List String) : String := "(" ++ sp ("a" :: a) ++ ")"
+inductive AStep where
+  | op (name : String) (o : AOp AVal)
+  | flatten (i : Nat)
+
+def aStep? : Sexp → Option AStep
+  | .list [.atom "add", i, v] => do let i' ← ref? i; let v' ← avalOf v; pure (.op "add" (.add i' v'))
+  | .list [.atom "delete", i, v] => do let i' ← ref? i; let v' ← avalOf v; pure (.op "delete" (.delete i' v'))
+  | .list [.atom "find", i, v] => do let i' ← ref? i; let v' ← avalOf v; pure (.op "find" (.find i' v'))
+  | .list [.atom "addAll", i, j] => do let i' ← ref? i; let j' ← ref? j; pure (.op "addAll" (.addAll i' j'))
+  | .list [.atom "deleteAll", i, j] => do let i' ← ref? i; let j' ← ref? j; pure (.op "deleteAll" (.deleteAll i' j'))
+  | .list [.atom "slice", i, a, b] => do
+      let i' ← ref? i; let a' ← ref? a; let b' ← ref? b; pure (.op "slice" (.slice i' a' b'))
+  | .list [.atom "unique", i] => do let i' ← ref? i; pure (.op "unique" (.unique i'))
+  | .list [.atom "sort", i] => do let i' ← ref? i; pure (.op "sort" (.sort i'))
+  | .list [.atom "len", i] => do let i' ← ref? i; pure (.op "len" (.len i'))
+  | .list [.atom "flatten", i] => do let i' ← ref? i; pure (.flatten i')
+  | .list [.atom "eachSlice", i, n] => do let i' ← ref? i; let n' ← n.int?; pure (.op "eachSlice" (.eachSlice i' n'))
+  | .list [.atom "at", i, n] => do let i' ← ref? i; let n' ← n.int?; pure (.op "at" (.at i' n'))
+  | .list (.atom "lit" :: vs) => (vs.mapM avalOf).map fun vs' => .op "lit" (.lit vs')
+  | _ => none
+
+def arrStr (a : List AVal) : String := (AVal.arr a).text
+
+def textLe (x y : AVal) : Bool := decide (x.text ≤ y.text)
 
 def runArr (steps : List AStep) : String := Id.run do
-  let mut pool : Array (List String) := #[]
+  let mut pool : List (List AVal) := []
   let mut out : Array String := #[]
   for st in steps do
-    let mut res := ""
-    let mut made : Option (List String) := none
     match st with
-    | .lit vs => made := some vs; res := "lit"
-    | .add i v =>
+    | .flatten i =>
       match pool[i]? with
-      | none => res := "bad-ref"
-      | some a => made := some (Arr.add a v); res := "add"
-    | .addAll i j =>
-      match pool[i]?, pool[j]? with
-      | some a, some b => made := some (Arr.addAll a b); res := "addAll"
-      | _, _ => res := "bad-ref"
-    | .delete i v =>
-      match pool[i]? with
-      | none => res := "bad-ref"
-      | some a => made := some (Arr.delete id a v); res := "delete"
-    | .deleteAll i j =>
-      match pool[i]?, pool[j]? with
-      | some a, some b => made := some (Arr.deleteAll id a b); res := "deleteAll"
-      | _, _ => res := "bad-ref"
-    | .unique i =>
-      match pool[i]? with
-      | none => res := "bad-ref"
-      | some a => made := some (Arr.unique id a); res := "unique"
-    | .slice i x y =>
-      match pool[i]? with
-      | none => res := "bad-ref"
+      | none => out := out.push "bad-ref"
       | some a =>
-        match Arr.slice a x y with
-        | some s => made := some s; res := "slice"
-        | none => res := "skip"      -- bounds outside the value: a caller error, outside the property
-    | .at i n =>
-      match pool[i]? with
-      | none => res := "bad-ref"
-      | some a =>
-        res := "at=" ++ (if n < 0 then "_" else match Arr.atIdx a n.toNat with | some v => v | none => "_")
-    match made with
-    | none => out := out.push res
-    | some a =>
-      pool := pool.push a
-      out := out.push (res ++ " " ++ arrStr a ++ " N" ++ toString a.length)
-  return " | ".intercalate out.toList ++ " || " ++ " ; ".intercalate (pool.toList.map arrStr)
+        let r := AVal.flats a
+        pool := pool ++ [r]
+        out := out.push ("flatten " ++ arrStr r ++ " N" ++ toString r.length)
+    | .op name op =>
+      let (pool', obs) := stepAImpl AVal.text textLe pool op
+      let res := match obs with
+        | .made =>
+          match pool'.getLast? with
+          | some a => name ++ " " ++ arrStr a ++ " N" ++ toString a.length
+          | none => name
+        | .badRef => "bad-ref"
+        | .fault => "skip"                    -- Slice bounds outside the value: a caller error, outside the property
+        | .illegal => name ++ "=illegal"
+        | .got (some v) => name ++ "=" ++ v.text
+        | .got none => name ++ "=_"
+        | .num n => name ++ "=" ++ toString n
+        | .chunks cs => name ++ "=[" ++ sp (cs.map arrStr) ++ "]"
+        | .elems vs => name ++ "=" ++ arrStr vs
+      pool := pool'
+      out := out.push res
+  return " | ".intercalate out.toList ++ " || " ++ " ; ".intercalate (pool.map arrStr)
 
 def execArr (steps : List Sexp) : String :=
   match steps.mapM aStep? with
